@@ -517,9 +517,10 @@ type CallExpression struct {
 }
 
 func (ce CallExpression) PrettyPrint(out *PrintState) *PrintState {
+	oldExpressionPrecedence := out.ExpressionPrecedence
+	out.ExpressionPrecedence = CALL // so (-a)(1) or (a+b)(1) keep their parentheses.
 	ce.Function.PrettyPrint(out)
 	out.Print("(")
-	oldExpressionPrecedence := out.ExpressionPrecedence
 	out.ExpressionPrecedence = LOWEST
 	out.ComaList(ce.Arguments)
 	out.ExpressionPrecedence = oldExpressionPrecedence
